@@ -40,6 +40,46 @@ type c05Outcome struct {
 	labels     []string
 	nontrivial bool
 	events     []string
+	// deadPeerFullWindow: the recorded GBN finding as it shows at this
+	// layer: one side has failed and gone, the other sees no error and has
+	// spent the last 100 virtual seconds retransmitting a full window (20
+	// distinct DATA sequence numbers, no keepalive ping among them) to
+	// nobody.
+	deadPeerFullWindow bool
+}
+
+// fullWindowLoop evaluates the predicate of the recorded finding
+// gbn-dead-peer-full-window-c05 on the relay's event log.
+func fullWindowLoop(events []relay.Event, now time.Duration, blocked, gone string) (bool, string) {
+	since := now - 100*time.Second
+	seqs := map[string]bool{}
+	n, other, pings, nonData := 0, 0, 0, 0
+	for _, e := range events {
+		if e.Op != "send" || e.T < since {
+			continue
+		}
+		if e.Who == gone {
+			other++ // the peer still transmits: not a dead peer
+			continue
+		}
+		if e.Who != blocked {
+			continue
+		}
+		n++
+		h := e.Head
+		// DATA packet: type 02, seq, final flag, ping flag
+		if len(h) < 8 || h[:2] != "02" {
+			nonData++ // it sends something else than DATA
+			continue
+		}
+		if h[6:8] == "01" {
+			pings++ // a ping of its own is on the wire: pong timer armed
+			continue
+		}
+		seqs[h[2:4]] = true
+	}
+	why := fmt.Sprintf("last 100s: %s sent %d packets (%d distinct DATA seqs, %d pings, %d other), %s sent %d", blocked, n, len(seqs), pings, nonData, gone, other)
+	return other == 0 && pings == 0 && nonData == 0 && n >= 20 && len(seqs) == 20, why
 }
 
 type e2eSide struct {
@@ -244,6 +284,17 @@ func runC05(t *testing.T, c *c05Case) (out c05Outcome) {
 			}
 			if len(blocked) > 0 {
 				out.violation = "transfer neither completed nor failed visibly on both sides 300s after the relay faults ceased: " + strings.Join(blocked, "; ")
+				if len(blocked) == 1 {
+					names := []string{"client", "server"}
+					bi := 0
+					if sides[0].rerr != nil || sides[0].werr != nil {
+						bi = 1
+					}
+					_, evs := r.Snapshot()
+					var why string
+					out.deadPeerFullWindow, why = fullWindowLoop(evs, relayNow(evs), names[bi], names[1-bi])
+					out.violation += " [" + why + "]"
+				}
 			} else {
 				out.labels = append(out.labels, "failed_visibly")
 			}
@@ -409,6 +460,11 @@ func TestC05EndToEnd(t *testing.T) {
 	if stats.ReplayCase(unit, &rc) {
 		for i := 0; i < 5; i++ {
 			if o := runC05(t, &rc); o.violation != "" {
+				if o.deadPeerFullWindow && rec.IsKnown("gbn-dead-peer-full-window-c05") {
+					t.Logf("replay run %d matches the recorded finding gbn-dead-peer-full-window-c05: %s", i, o.violation)
+					rec.KnownHit("gbn-dead-peer-full-window-c05")
+					continue
+				}
 				rec.Violation(o.violation, "c05", rc)
 				t.Fatalf("%s\n%s", o.violation, strings.Join(o.events, "\n"))
 			}
@@ -439,6 +495,10 @@ func TestC05EndToEnd(t *testing.T) {
 			rec.Sample(c)
 		}
 		if o.violation != "" {
+			if o.deadPeerFullWindow && rec.IsKnown("gbn-dead-peer-full-window-c05") {
+				rec.KnownHit("gbn-dead-peer-full-window-c05")
+				return
+			}
 			rec.Pending(o.violation, "c05", struct {
 				*c05Case
 				Events []string `json:"relay_events"`
@@ -447,6 +507,18 @@ func TestC05EndToEnd(t *testing.T) {
 		}
 	})
 	rec.Done()
+}
+
+// relayNow is the time of the latest relay event (the relay's clock at the
+// verdict, in the bubble's virtual time).
+func relayNow(events []relay.Event) time.Duration {
+	var t time.Duration
+	for _, e := range events {
+		if e.T > t {
+			t = e.T
+		}
+	}
+	return t
 }
 
 // ---------- real time: relay stream failures ----------
